@@ -92,6 +92,9 @@ func checkTasks(p *Pipeline, scenario, engineName string) int {
 		det := map[string]interface{}{}
 		if exit == 0 {
 			p.timed("determinism_selftest", func() { det = p.detSelfTest(bin, variant, params, m.Records, tc.DetRuns, env) })
+			if len(p.DetViolations) > 0 {
+				exit = p.handleViolations(engineName, "race", bin, p.DetViolations, variant, params, env, tc.MinimiseS)
+			}
 		}
 		if d := m.Stats["runs_discarded_build_mismatch"]; d*50 > int64(m.Runs) {
 			p.logf("WARNING: %d of %d runs were discarded because a message could not be built as intended", d, m.Runs)
